@@ -258,7 +258,9 @@ Definition write_bounds (m : mode) (k : cst) (c : content) (cdims : list string)
       let s2 := if isnew then create_dim m bdim size (upd_dimsz (cons (bdim, size)) s1) else s1 in
       let default := if isnew then (cvar ++ "_bounds")%string else "bounds" in
       let '(bv, s3) := netcdf_name (match k_bvar k with Some n => n | None => default end) s2 in
-      let attrs := filter (fun p => negb (smem (fst p) c17_omit_bounds_props && has_prop (c_props c) (fst p)))
+      (* a property is left to the parent only if the parent has it with the same value (commit c07ad3c) *)
+      let attrs := filter (fun p => negb (smem (fst p) c17_omit_bounds_props &&
+                                          option_eqb String.eqb (prop_of (c_props c) (fst p)) (Some (snd p))))
                           (b_props b) in
       let s4 := write_var m bv nd bc attrs [] s3 in
       ([("bounds", [("", bv)])], upd_bnds (cons (cvar, bv)) s4)
@@ -339,17 +341,17 @@ Definition write_aux (m : mode) (k : cst) (dims : list string) (s : wst) : strin
     (nv, write_var m nv dims c (c_props c) extra s2)
   end.
 
-(* the 'bounds' attribute returned by _write_bounds is not passed on for a
-   domain ancillary (the reader finds the bounds through formula_terms of the
-   parent's bounds) *)
+(* the 'bounds' attribute returned by _write_bounds is passed on for a domain
+   ancillary too (commit 32b7c9f; before, the bounds variable was written but
+   not referenced) *)
 Definition write_anc (m : mode) (k : cst) (dims : list string) (default : string) (s : wst) : string * wst :=
   let c := k_c k in
   match find_seen true c (Some dims) s with
   | Some e => (e_ncvar e, s)
   | None =>
     let '(nv, s1) := netcdf_name (match name_of k c None with Some n => n | None => default end) s in
-    let '(_, s2) := write_bounds m k c dims nv s1 in
-    (nv, write_var m nv dims c (c_props c) [] s2)
+    let '(extra, s2) := write_bounds m k c dims nv s1 in
+    (nv, write_var m nv dims c (c_props c) extra s2)
   end.
 
 Definition write_msr (m : mode) (k : cst) (dims : list string) (s : wst) : string * wst :=
